@@ -85,7 +85,7 @@ def registry_body(ctx, name):
     that name (an array instead of a lazily built Vec)"""
     cands = [b for p, b in sorted(ctx.facts.bodies.items())
              if re.search(r'(^|::)%s as core::ops::Deref>::deref::__static_ref_initialize$' % name, p)
-             or (b.kind in ('const', 'static') and re.search(r'(^|::)%s$' % name, p))]
+             or (b.kind in ('const', 'static') and re.search(r'(^|::)%s$' % name, p) and str(b.locals.get(0, '')).startswith('['))]
     if len(cands) != 1:
         raise AnchorLost('expected exactly one definition of the registry %s (lazy_static initialiser or const / static item), found %d' % (name, len(cands)))
     return cands[0]
